@@ -707,7 +707,9 @@ class Image:
             voxels: tuple[slice] = tuple(
                 slice(
                     max(0, np.min(voxels_box[:, d])),
-                    min(np.max(voxels_box[:, d]), self.num_voxels[d]),
+                    # Clip at both ends (a negative stop would be interpreted
+                    # relative to the end of the axis)
+                    max(0, min(np.max(voxels_box[:, d]), self.num_voxels[d])),
                 )
                 for d in range(self.space_dim)
             )
@@ -717,7 +719,7 @@ class Image:
                 voxels: tuple[slice] = tuple(
                     slice(
                         max(0, np.min(voxels[:, d])),
-                        min(np.max(voxels[:, d]), self.num_voxels[d]),
+                        max(0, min(np.max(voxels[:, d]), self.num_voxels[d])),
                     )
                     for d in range(self.space_dim)
                 )
